@@ -40,7 +40,7 @@ def check_roundtrip(ctx, S, kind):
         return
     comp = r[1]
     if comp is None:
-        back = impl.call(misc.expand_elements, comp)
+        back = _cmp(ctx, 'expand_elements', misc.expand_elements, [comp], nontrivial=False, kind=kind + ':expand')
         if back != ('ok', want):
             ctx.violation('misc.compact_elements', 'empty-set', 'expand_elements(compact_elements([])) is not []: compact returns None',
                           {'kind': 'roundtrip', 'S': list(S), 'compact': None, 'expand': back})
